@@ -9,6 +9,7 @@ import (
 	"os/exec"
 	"path/filepath"
 	"runtime"
+	"runtime/pprof"
 	"sort"
 	"strconv"
 	"strings"
@@ -120,6 +121,12 @@ func workerMain(property string, args []string, register func(r *Registry)) int 
 		}
 	}
 	runtime.GOMAXPROCS(1)
+	if pf := os.Getenv("VERIF_CPUPROFILE"); pf != "" && k == 0 {
+		if f, err := os.Create(pf); err == nil {
+			pprof.StartCPUProfile(f)
+			defer pprof.StopCPUProfile()
+		}
+	}
 	r := buildRegistry(tier, register)
 	e := &explorer{tier: tier, worker: k, nworkers: n, deadline: deadline, res: &workerResult{OutcomeSet: map[string][]uint64{}, NTSet: map[string][]uint64{}}, maxViol: 40, poison: map[string]bool{}, selfTestN: 16}
 	if len(r.scenarios) > 500 {
@@ -423,6 +430,7 @@ func parentMain(property, tier string, register func(r *Registry)) int {
 				os.WriteFile(poison, []byte(strings.Join(poisoned, "\n")), 0o644)
 				cmd := exec.Command(self, "--worker", fmt.Sprintf("%d/%d", k, nw), "--tier", tier, "--out", out,
 					"--journal", journal, "--poison", poison, "--deadline", strconv.FormatInt(deadline.Unix(), 10))
+				cmd.Env = append(os.Environ(), "GODEBUG=gcshrinkstackoff=1")
 				var stderr strings.Builder
 				cmd.Stderr = &tailWriter{b: &stderr, max: 6000}
 				cmd.Stdout = os.Stderr
